@@ -273,10 +273,10 @@ def afterCoord (o : Out) : SOut :=
   let r : Rec := { o.peng with n := match o.peng.n with | none => some sing | some x => some x }
   { toks := o.toks, peng := r, pe := (verbView r).1, pl := (verbView r).2, warns := o.warns }
 
-/-- `S(CP(…), VP(V …))`.  `elements` = number of elements of the CP including the `C`: a CP built without any
-    element never ran `linkProperties`, has no `peng`, and `S.linkProperties` raises on `subject.peng`. -/
-def sCP (pt : Str → Str) (andC : Str) (conj : Option Conj) (ms : List Member) : Except Crash SOut :=
-  if conj.isNone ∧ ms.isEmpty then .error Crash.attributeError
+/-- `S(CP(…), VP(V …))`.  A CP built without any element never ran `linkProperties` and has no `peng`: since 3a576cc
+    `S.linkProperties` then links nothing and the verb reads its own record `rV` (its defaults). -/
+def sCP (pt : Str → Str) (andC : Str) (conj : Option Conj) (ms : List Member) (rV : Rec) : Except Crash SOut :=
+  if conj.isNone ∧ ms.isEmpty then .ok (afterCoord { toks := [], peng := rV })
   else
     match cpReal pt andC conj ms {} with
     | .error e => .error e
